@@ -14,7 +14,7 @@ func Discharge(r *FuncResult, o *Obligation, work string, timeoutS, seed int, mo
 		return
 	}
 	hyps := append([]*Term{}, r.Hyps[:o.NHyps]...)
-	hyps = append(hyps, o.PC, p.Not(o.Goal))
+	hyps = append(hyps, o.PC, p.Not(splitIff(p, o.Goal)))
 	script := p.Script(hyps, o.Name+"\n"+o.Text)
 	res := Solve(work, o.Name, script, timeoutS, seed, mode)
 	o.Result = res
@@ -43,4 +43,44 @@ func Smoke(r *FuncResult, work string, timeoutS int) string {
 
 func (o *Obligation) String() string {
 	return fmt.Sprintf("%s [%s] %s", o.Name, strings.Join(o.Tags, ","), o.Text)
+}
+
+// splitIff rewrites Boolean equalities that contain quantifiers into two implications
+// (solvers give up on a negated iff over a quantified side far more often than on implications).
+func splitIff(p *TermPool, t *Term) *Term {
+	switch t.Op {
+	case "=":
+		if t.Args[0].S == SBool && (hasQuant(t.Args[0]) || hasQuant(t.Args[1])) {
+			a, b := splitIff(p, t.Args[0]), splitIff(p, t.Args[1])
+			return p.And(p.Implies(a, b), p.Implies(b, a))
+		}
+	case "and":
+		as := make([]*Term, len(t.Args))
+		for i, a := range t.Args {
+			as[i] = splitIff(p, a)
+		}
+		return p.And(as...)
+	case "=>":
+		return p.Implies(t.Args[0], splitIff(p, t.Args[1]))
+	case "forall":
+		n := len(t.Args) - 1
+		body := t.Args[n]
+		if body.Op == "=" && body.Args[0].S == SBool && (hasQuant(body.Args[0]) || hasQuant(body.Args[1])) {
+			vars := t.Args[:n]
+			return p.And(p.Forall(vars, p.Implies(body.Args[0], body.Args[1])), p.Forall(vars, p.Implies(body.Args[1], body.Args[0])))
+		}
+	}
+	return t
+}
+
+func hasQuant(t *Term) bool {
+	if t.Op == "forall" || t.Op == "exists" {
+		return true
+	}
+	for _, a := range t.Args {
+		if hasQuant(a) {
+			return true
+		}
+	}
+	return false
 }
